@@ -68,6 +68,44 @@ def conds_of_b(fn, node, inline=False):
     return out
 
 
+def conds_iter(fn, node=None, block=None, inline=False):
+    """like conds_of_b, but within one iteration: the condition block of a loop is control dependent, through the back edge, on
+    the `break`/`continue` tests of the previous iteration; those are facts about the previous value of the loop variable and
+    are not followed (the loop model accounts for them separately)."""
+    g = graph(fn)
+    if block is None:
+        pos = fn.block_of(node)
+        if not pos:
+            return []
+        block = pos[0]
+    out = []
+    seen = set()
+    st = [block]
+    done = set()
+    while st:
+        x = st.pop()
+        if x in done:
+            continue
+        done.add(x)
+        for (a, lab) in g.control_deps.get(x, ()):
+            if (a, lab) in seen:
+                continue
+            if g.blocks[x].get('term_c') in ('ForStmt', 'WhileStmt', 'DoStmt') and g.cond(x):
+                # x is a loop condition block: a dependence on a block inside its own body comes from the back edge
+                body = set()
+                t_edge = g.succ[x][0]
+                if t_edge is not None:
+                    body = g.reachable_from(t_edge, blocked={x})
+                if a in body:
+                    continue
+            seen.add((a, lab))
+            c = g.cond(a)
+            if c:
+                out.append((fn.term(c, inline=inline), lab, c, a))
+            st.append(a)
+    return out
+
+
 def six(ctx):
     fs = [f for f in ctx.need(MS, ctx.units) if len(f.params) == 6]
     if not fs:
@@ -112,8 +150,10 @@ def feed_sites(f):
             if x[0] == 'local':
                 d = f.defs.get(x[2], {})
                 ws = [w for w in d.get('writes', []) if f.n(w).get('op') == '=']
-                if len(ws) == 1:
+                if len(ws) == 1 and not d.get('init'):
                     x = strip_cast(f.term(f.n(ws[0])['ch'][1], inline=False))
+                elif f.single_def(x[2]):
+                    x = strip_cast(f.term(f.single_def(x[2]), inline=False))        # auto next = <successor of in(i)>
             out.append((c, x, nocast(f.term(a[2], inline=False)), [(t, lab) for (t, lab, cn) in conds_of(f, c)], None))
             continue
         for h in helpers:
@@ -281,9 +321,13 @@ def rule_rank_agree(ctx):
                     for (t, lab) in conds:
                         if lab is not True:
                             continue
-                        tt = nocast(strip_cast(t))
+                        tt = nocast(strip_cast(_resolve_succ_locals(f, t)))
                         seen.append(fmt_term(tt)[:70])
                         # replace the successor term and the next key by symbols, then compare by FORM
+                        for s_ in sorted(set(subterms(tt)), key=lambda z: -len(repr(z))):
+                            e2 = succ_of(s_) if isinstance(s_, tuple) and s_ and s_[0] in ('op', 'call', 'cast') else None
+                            if e2 is not None and _lin_diff_is(e2, e, 0):
+                                tt = _replace(tt, s_, ('sym', 'S'))
                         nxt = None
                         for s_ in subterms(tt):
                             if is_in_call(s_) and _lin_diff_is(in_arg(s_), e, 1):
@@ -304,6 +348,20 @@ def rule_rank_agree(ctx):
                 continue
             obs.append(Ob('RANK-AGREE', f, c, 'add_point(in(e), e) or a successor point', f"add_point({fmt_term(xt)[:60]}, {fmt_term(yt)})", VIOLATED, arm='other'))
     return obs
+
+
+def _resolve_succ_locals(f, t):
+    """`auto next = successor(in(i)); if (next < in(i + 1))`: a single-definition local that holds a successor term is replaced by it"""
+    if isinstance(t, tuple):
+        if t and t[0] == 'local' and len(t) == 3:
+            init = f.single_def(t[2])
+            if init:
+                it = strip_cast(f.term(init, inline=False))
+                if succ_of(it) is not None:
+                    return it
+            return t
+        return tuple(_resolve_succ_locals(f, x) for x in t)
+    return t
 
 
 def _lin_diff_is(a, b, k):
@@ -527,19 +585,7 @@ def rule_seam(ctx):
         if sites is None:
             obs.append(Ob('SEAM', f, 0, 'one closure that feeds the points to the builder', 'not found', UNDECIDED, arm='end-gap'))
             continue
-        for (c, x, yt, conds, via) in sites:
-            e = succ_of(x)
-            if e is not None and nocast(e) == E1 and yt == E1:
-                # must be restricted to chunks that do not end the data
-                cs = [(nocast(strip_cast(t)), lab) for (t, lab) in conds]
-                not_last = any(_implies(t if lab else ('un', '!', t), ('op', '<', END, N)) for (t, lab) in cs)
-                found = (c, not_last)
-        if found and found[1]:
-            obs.append(Ob('SEAM', f, found[0], 'a chunk with end < n that ends with a run of duplicates adds (succ(in(end-1)), end-1)', 'present, under end < n', OK, arm='end-gap'))
-        else:
-            obs.append(Ob('SEAM', f, found[0] if found else 0, 'a chunk with end < n that ends with a run of duplicates adds the successor point (succ(in(end-1)), end-1)',
-                          'no such point is added: the loop stops at end-2 and the last element is only added when it differs from its predecessor, so a run that ends exactly at the chunk end '
-                          'never gets its gap-guard point (the next chunk starts after the run)', VIOLATED, arm='end-gap'))
+        obs += [o for o in _seg_model(f) if o.rule == 'SEAM']
     return obs
 
 
@@ -552,6 +598,8 @@ def _eval(t, env):
         return env[t[1]]
     if t0 == 'cast':
         return _eval(t[2], env)
+    if t0 == 'un' and t[1] == '!':
+        return int(not _eval(t[2], env))
     if t0 == 'cond':
         return _eval(t[2], env) if _eval(t[1], env) else _eval(t[3], env)
     if t0 == 'call' and t[1] in ('std::min', 'std::max') and len(t[2]) == 2:
@@ -1072,10 +1120,12 @@ class _Unknown(Exception):
     pass
 
 
-def _cover_eval(t, env, D):
-    """evaluate a guard of make_segmentation under a valuation of {n, start, end, loop variable} (integers) and of the
-    predicates D[k] = `in(k) == in(k-1)`; anything else is unknown"""
+def _cover_eval(t, env, D, G=None, f=None):
+    """evaluate a guard of make_segmentation under a valuation of {n, start, end, loop variable} (integers), of the predicates
+    D[k] = `in(k) == in(k-1)` and G[k] = `succ(in(k)) < in(k+1)`; anything else is unknown"""
     t = strip_cast(t)
+    if f is not None:
+        t = strip_cast(_resolve_succ_locals(f, t))
     k = t[0]
     if k == 'lit' and isinstance(t[1], int):
         return t[1]
@@ -1084,24 +1134,39 @@ def _cover_eval(t, env, D):
             return env[t[1]]
         raise _Unknown(fmt_term(t))
     if k == 'un' and t[1] == '!':
-        return not _cover_eval(t[2], env, D)
+        return not _cover_eval(t[2], env, D, G, f)
     if k == 'op' and len(t) == 4:
         o = t[1]
         if o in ('&&', '||'):
-            a = _cover_eval(t[2], env, D)
+            a = _cover_eval(t[2], env, D, G, f)
             if o == '&&' and a is False:
                 return False
             if o == '||' and a is True:
                 return True
-            return _cover_eval(t[3], env, D)
+            return _cover_eval(t[3], env, D, G, f)
         if o in ('==', '!=') and is_in_call(t[2]) and is_in_call(t[3]):
-            a, b = _cover_eval(in_arg(t[2]), env, D), _cover_eval(in_arg(t[3]), env, D)
+            a, b = _cover_eval(in_arg(t[2]), env, D, G, f), _cover_eval(in_arg(t[3]), env, D, G, f)
             if a == b:
                 return o == '=='
             if abs(a - b) == 1 and max(a, b) in D:
                 return D[max(a, b)] == (o == '==')
             raise _Unknown(fmt_term(t))
-        a, b = _cover_eval(t[2], env, D), _cover_eval(t[3], env, D)
+        if G is not None and o in ('<', '>', '<=', '>='):
+            # the gap predicate: succ(in(e)) < in(e + 1), in either orientation, also spelled through an assignment (next = succ) < ...
+            l, r = strip_cast(t[2]), strip_cast(t[3])
+            if o in ('>', '>='):
+                l, r, o2 = r, l, {'>': '<', '>=': '<='}[o]
+            else:
+                o2 = o
+            e = succ_of(l)
+            if e is not None and is_in_call(r) and o2 == '<':
+                a, b = _cover_eval(nocast(e), env, D, G, f), _cover_eval(in_arg(r), env, D, G, f)
+                if b == a + 1:
+                    if a in G:
+                        return G[a]
+                    raise _Unknown('gap predicate at rank %d' % a)
+                raise _Unknown(fmt_term(t))
+        a, b = _cover_eval(t[2], env, D, G, f), _cover_eval(t[3], env, D, G, f)
         if isinstance(a, bool) or isinstance(b, bool):
             raise _Unknown(fmt_term(t))
         if o == '+':
@@ -1113,51 +1178,215 @@ def _cover_eval(t, env, D):
 
 
 def rule_index_cover(ctx):
-    """make_segmentation(n, start, end, ...) feeds every rank of [start, end) that is not a duplicate of its predecessor:
-    for every k in [start, end), if k == start or in(k) != in(k-1) then some `add_point(in(e), e)` site with e = k is reached.
-    The sites, their path conditions and the bounds of the loop are read off the CFG; the obligation is then decided on the
-    abstract model {start, end, n, D[k] = (in(k) == in(k-1))}: all guards are difference constraints with constants <= 2, so
-    chunk lengths 1..6 (every position relative to both ends) at two offsets, with every duplicate pattern, are exhaustive."""
     obs = []
     for f in six(ctx):
-        fd_ = feeder_of(f)
-        if fd_ is None:
-            continue
-        lid = fd_.id
+        obs += [o for o in _seg_model(f) if o.rule == 'INDEX-COVER']
+    return obs
+
+
+def _pre(f, t):
+    return nocast(strip_cast(_resolve_succ_locals(f, t)))
+
+
+def _seg_model(f):
+    """make_segmentation(n, start, end, ...) decided on an abstract model of its driver.
+
+    The feed sites (calls of the feeding closure, with helper closures inlined), their path conditions (the `if`/loop
+    conditions they are control dependent on) and the loops with their bounds and `break`s are read off the CFG.  The model
+    has the integers {n, start, end, loop variable} and, per rank k, the predicates D[k] = `in(k) == in(k-1)` and
+    G[k] = `succ(in(k)) < in(k+1)`.  All guards are difference constraints with constants <= 2, so chunk lengths 1..6 (every
+    position relative to both ends) at two offsets, followed or not by more data, with every duplicate pattern, are
+    exhaustive.  Obligations:
+      INDEX-COVER  every rank k of [start, end) with k == start or !D[k] reaches a site add_point(in(k), k);
+      SEAM/end-gap every rank k of (start, end) that ends a run of duplicates (D[k], and k is the last of the chunk or !D[k+1])
+                   with k + 1 < n and G[k] reaches a site add_point(succ(in(k)), k) - in particular k = end - 1 when end < n,
+                   where the next chunk starts after the run and cannot add it."""
+    cached = getattr(f, '_seg_model_obs', None)
+    if cached is not None:
+        return cached
+    obs = []
+    f._seg_model_obs = obs
+    fd_ = feeder_of(f)
+    if fd_ is None:
+        return obs
+    lid = fd_.id
+    g = graph(f)
+    Nn, Sn, En = f.params[0]['name'], f.params[1]['name'], f.params[2]['name']
+    N = ('param', Nn)
+    sites = []
+    undecided = None
+    for c in [c for c in f.calls() if f.n(c).get('cd') == lid and reachable(f, c)]:
+        a = f.n(c)['args']
+        x = strip_cast(_resolve_succ_locals(f, f.term(a[1], inline=False)))
+        if x[0] == 'local':
+            d = f.defs.get(x[2], {})
+            ws = [w for w in d.get('writes', []) if f.n(w).get('op') == '=']
+            if len(ws) == 1 and not d.get('init'):
+                x = strip_cast(f.term(f.n(ws[0])['ch'][1], inline=False))      # K next; if ((next = succ) < ...)
+        yt = nocast(f.term(a[2], inline=False))
+        if is_in_call(x) and in_arg(x) == yt:
+            kind = 'plain'
+        elif succ_of(x) is not None and nocast(succ_of(x)) == yt:
+            kind = 'gap'
+        else:
+            continue        # the closing point and anything else: RANK-AGREE, CLOSING
+        conds = []
+        loopvar = None
+        for (t, lab, cn, cb) in conds_iter(f, c):
+            tc = g.blocks[cb].get('term_c')
+            if tc in ('ForStmt', 'WhileStmt'):
+                loop = _loop_info(f, g, cb)
+                if loop is None:
+                    undecided = f"loop at line {f.n(cn)['l']}: not a `for (i = a; cond; ++i)` whose only other exits are `break`s under evaluable conditions"
+                else:
+                    loopvar = (loop[0], _pre(f, loop[1]), _pre(f, t), [[(_pre(f, t2), l2) for (t2, l2) in bc] for bc in loop[3]])
+                conds.append((_pre(f, t), lab))
+            elif tc == 'IfStmt':
+                conds.append((_pre(f, t), lab))
+            # the short-circuit blocks of && / || belong to a whole condition that is listed as well
+        sites.append((c, kind, yt, conds, loopvar))
+    req_c = 'every rank k of [start, end) with k == start or in(k) != in(k-1) reaches an add_point(in(k), k) site (for every chunk length, also 1 and 2)'
+    req_g = 'a run of duplicates that ends at rank k with more data after it (k + 1 < n) and a gap before the next key reaches an add_point(succ(in(k)), k) site - also when k is the last rank of a chunk (the next chunk starts after the run and cannot add it)'
+    if undecided:
+        obs.append(Ob('INDEX-COVER', f, 0, 'every rank of [start, end) is fed or duplicates its predecessor', undecided, UNDECIDED, arm='cover'))
+        obs.append(Ob('SEAM', f, 0, req_g, undecided, UNDECIDED, arm='end-gap'))
+        return obs
+    plain = [s_ for s_ in sites if s_[1] == 'plain']
+    gaps = [s_ for s_ in sites if s_[1] == 'gap']
+    if not plain:
+        obs.append(Ob('INDEX-COVER', f, 0, 'every rank of [start, end) is fed or duplicates its predecessor', 'no add_point(in(e), e) site', VIOLATED, arm='cover'))
+
+    def reached(site, k, env0, D, G):
+        c, kind, yt, conds, loop = site
+        env = dict(env0)
+        if loop is not None:
+            lv, init, lcond, breaks = loop
+            lo = _cover_eval(init, env, D, G)
+            if k < lo:
+                return False
+            # the loop reaches i = k only if its condition held, and no break was taken, for every earlier value
+            for j in range(lo, k):
+                ej = dict(env, **{lv: j})
+                if not _cover_eval(lcond, ej, D, G):
+                    return False
+                for bc in breaks:
+                    if all(_cover_eval(t, ej, D, G) == lab for (t, lab) in bc):
+                        return False
+            env[lv] = k
+        if _cover_eval(yt, env, D, G) != k:
+            return False
+        return all(_cover_eval(t, env, D, G) == lab for (t, lab) in conds)
+
+    bad_c = bad_g = None
+    unknown = None
+    n_models = 0
+    for start in (0, 3):
+        for ln in range(1, 7):
+            end = start + ln
+            for n in (end, end + 2):
+                ks = list(range(start + 1, end))
+                for bits in itertools.product((False, True), repeat=len(ks)):
+                    D = dict(zip(ks, bits))
+                    n_models += 1
+                    env0 = {Nn: n, Sn: start, En: end}
+                    dup = ', '.join(f"in({j}){'==' if D[j] else '!='}in({j - 1})" for j in ks)
+                    for k in range(start, end):
+                        if k == start or not D[k]:
+                            if bad_c is None and plain:
+                                try:
+                                    if not any(reached(s_, k, env0, D, {}) for s_ in plain):
+                                        bad_c = f"start={start}, end={end}, n={n}" + (f" ({dup})" if dup else '') + f": rank {k} is never fed to the builder"
+                                except _Unknown as e:
+                                    unknown = str(e)
+                        if k > start and D[k] and k + 1 < n and (k + 1 >= end or not D[k + 1]) and bad_g is None:
+                            try:
+                                if not any(reached(s_, k, env0, D, {k: True}) for s_ in gaps):
+                                    bad_g = (f"start={start}, end={end}, n={n}" + (f" ({dup})" if dup else '') + f": the run ending at rank {k} " +
+                                             ('(the last of the chunk) ' if k == end - 1 else '') + 'never gets its successor point')
+                            except _Unknown as e:
+                                unknown = str(e)
+    if plain:
+        if bad_c and not unknown:
+            obs.append(Ob('INDEX-COVER', f, plain[0][0], req_c, bad_c, VIOLATED, arm='cover'))
+        elif unknown and bad_c:
+            obs.append(Ob('INDEX-COVER', f, plain[0][0], req_c, f"a guard outside the model: `{unknown[:70]}`", UNDECIDED, arm='cover'))
+        else:
+            obs.append(Ob('INDEX-COVER', f, plain[0][0], req_c, f"{len(plain)} sites cover every rank in {n_models} abstract models (lengths 1..6, all duplicate patterns)", OK, arm='cover'))
+    if bad_g and not unknown:
+        obs.append(Ob('SEAM', f, gaps[0][0] if gaps else 0, req_g, bad_g if gaps else 'no add_point(succ(in(e)), e) site', VIOLATED, arm='end-gap'))
+    elif unknown and bad_g:
+        obs.append(Ob('SEAM', f, gaps[0][0] if gaps else 0, req_g, f"a guard outside the model: `{unknown[:70]}`", UNDECIDED, arm='end-gap'))
+    else:
+        obs.append(Ob('SEAM', f, gaps[0][0], req_g, f"{len(gaps)} gap sites cover the end of every run in {n_models} abstract models, including runs that end with the chunk", OK, arm='end-gap'))
+    return obs
+
+
+def rule_in_range(ctx):
+    """make_segmentation(n, start, end, ...) reads the input only inside [0, n): for every call in(E) of the driver, on every
+    path that reaches it, 0 <= E < n.  Decided on the abstract model of _seg_model (all chunk lengths 1..6 at two offsets,
+    followed or not by more data, every duplicate pattern).  The path condition of a read is made of the `if`/loop conditions it
+    is control dependent on within the iteration and of the operands evaluated before it in its own condition (`a && in(e)`:
+    a holds); a condition on key values that the model cannot evaluate is taken as satisfiable.  This is the clause the test
+    suite cannot see: in(n) is one element past the caller's array, and the value read is discarded."""
+    obs = []
+    for f in six(ctx):
         g = graph(f)
         Nn, Sn, En = f.params[0]['name'], f.params[1]['name'], f.params[2]['name']
+        INP = f.params[4]['name']
         sites = []
         undecided = None
-        for c in [c for c in f.calls() if f.n(c).get('cd') == lid and reachable(f, c)]:
-            a = f.n(c)['args']
-            x = strip_cast(f.term(a[1], inline=False))
-            yt = nocast(f.term(a[2], inline=False))
-            if not (is_in_call(x) and in_arg(x) == yt):
-                continue    # successor / closing points: RANK-AGREE, GAP-GUARD
+        for c in f.all_ids():
+            nd = f.n(c)
+            if nd['c'] not in ('CXXOperatorCallExpr', 'CallExpr') or not reachable(f, c):
+                continue
+            t = f.term(c, inline=False)
+            if not is_in_call(t, INP):
+                continue
+            et = in_arg(t)
             conds = []
-            loopvar = None
-            for (t, lab, cn, cb) in conds_of_b(f, c, inline=False):
+            loop = None
+            for (ct, lab, cn, cb) in conds_iter(f, c):
                 tc = g.blocks[cb].get('term_c')
                 if tc in ('ForStmt', 'WhileStmt'):
-                    # the loop this site sits in: for (i = init; cond; ++i) with no other write to i, no break
-                    loop = _loop_info(f, g, cb)
-                    if loop is None:
-                        undecided = f"loop at line {f.n(cn)['l']}: not a `for (i = a; cond; ++i)` without break or other writes to i"
+                    li = _loop_info(f, g, cb)
+                    if li is None:
+                        undecided = f"loop at line {f.n(cn)['l']}: not a `for (i = a; cond; ++i)` whose only other exits are `break`s under evaluable conditions"
                     else:
-                        loopvar = (loop[0], loop[1], nocast(t))
-                    conds.append((nocast(t), lab))
+                        loop = (li[0], _pre(f, li[1]), _pre(f, ct), [[(_pre(f, t2), l2) for (t2, l2) in bc] for bc in li[3]])
+                    conds.append((_pre(f, ct), lab))
                 elif tc == 'IfStmt':
-                    conds.append((nocast(t), lab))
-                # the short-circuit blocks of && / || belong to a whole condition that is listed as well
-            sites.append((c, yt, conds, loopvar))
+                    conds.append((_pre(f, ct), lab))
+            # operands of the enclosing && / || / ?: evaluated before this read
+            x = c
+            p_ = f.parent(x)
+            while p_:
+                pn = f.n(p_)
+                if pn['c'] == 'BinaryOperator' and pn.get('op') in ('&&', '||') and len(pn['ch']) == 2 and x == pn['ch'][1]:
+                    conds.append((_pre(f, f.term(pn['ch'][0], inline=False)), pn['op'] == '&&'))
+                elif pn['c'] == 'ConditionalOperator' and len(pn['ch']) == 3 and x in pn['ch'][1:]:
+                    conds.append((_pre(f, f.term(pn['ch'][0], inline=False)), x == pn['ch'][1]))
+                elif pn['c'] in ('CompoundStmt', 'IfStmt', 'ForStmt', 'WhileStmt', 'DeclStmt', 'InlinedCall'):
+                    if pn['c'] != 'DeclStmt':
+                        break
+                x = p_
+                p_ = f.parent(x)
+            sites.append((c, _pre(f, et), conds, loop))
+        req = 'every read in(e) of the segmentation driver has 0 <= e < n on every path that reaches it'
         if undecided:
-            obs.append(Ob('INDEX-COVER', f, 0, 'every rank of [start, end) is fed or duplicates its predecessor', undecided, UNDECIDED, arm='cover'))
+            obs.append(Ob('IN-RANGE', f, 0, req, undecided, UNDECIDED, arm='driver'))
             continue
-        if not sites:
-            obs.append(Ob('INDEX-COVER', f, 0, 'every rank of [start, end) is fed or duplicates its predecessor', 'no add_point(in(e), e) site', VIOLATED, arm='cover'))
+        if len(sites) < 3:
+            obs.append(Ob('IN-RANGE', f, 0, req, f"only {len(sites)} reads of the input found", UNDECIDED, arm='driver'))
             continue
+
+        def holds(t, lab, env, D):
+            """truth of one path condition; True when the model cannot evaluate it (a condition on key values)"""
+            try:
+                return _cover_eval(t, env, D, None) == lab
+            except _Unknown:
+                return True
+
         bad = None
-        unknown = None
         n_models = 0
         for start in (0, 3):
             for ln in range(1, 7):
@@ -1167,44 +1396,59 @@ def rule_index_cover(ctx):
                     for bits in itertools.product((False, True), repeat=len(ks)):
                         D = dict(zip(ks, bits))
                         n_models += 1
-                        for k in range(start, end):
-                            if k != start and D[k]:
-                                continue
-                            covered = False
-                            for (c, yt, conds, loop) in sites:
-                                env = {Nn: n, Sn: start, En: end}
+                        env0 = {Nn: n, Sn: start, En: end}
+                        for (c, et, conds, loop) in sites:
+                            if bad:
+                                break
+                            envs = []
+                            if loop is None:
+                                envs = [env0]
+                            else:
+                                lv, init, lcond, breaks = loop
                                 try:
-                                    if loop is not None:
-                                        lv, init, lcond = loop
-                                        lo = _cover_eval(init, env, D)
-                                        if k < lo:
-                                            continue
-                                        # the loop reaches i = k only if its condition held for every earlier value
-                                        if not all(_cover_eval(lcond, dict(env, **{lv: j}), D) for j in range(lo, k)):
-                                            continue
-                                        env[lv] = k
-                                    if _cover_eval(yt, env, D) != k:
-                                        continue
-                                    if all(_cover_eval(t, env, D) == lab for (t, lab) in conds):
-                                        covered = True
+                                    j = _cover_eval(init, env0, D, None)
+                                except _Unknown:
+                                    continue
+                                guard = 0
+                                while guard < 12:
+                                    guard += 1
+                                    ej = dict(env0, **{lv: j})
+                                    if not holds(lcond, True, ej, D):
                                         break
-                                except _Unknown as e:
-                                    unknown = str(e)
-                            if not covered and bad is None:
-                                dup = ', '.join(f"in({j}){'==' if D[j] else '!='}in({j - 1})" for j in ks)
-                                bad = f"start={start}, end={end}, n={n}" + (f" ({dup})" if dup else '') + f": rank {k} is never fed to the builder"
-        req = 'every rank k of [start, end) with k == start or in(k) != in(k-1) reaches an add_point(in(k), k) site (for every chunk length, also 1 and 2)'
-        if bad and not unknown:
-            obs.append(Ob('INDEX-COVER', f, sites[0][0], req, bad, VIOLATED, arm='cover'))
-        elif unknown and bad:
-            obs.append(Ob('INDEX-COVER', f, sites[0][0], req, f"a guard outside the model: `{unknown[:70]}`", UNDECIDED, arm='cover'))
+                                    envs.append(ej)
+                                    if any(all(holds(t, lab, ej, D) for (t, lab) in bc) and not any(_is_unknown(t, ej, D, None) for (t, lab) in bc) for bc in breaks):
+                                        break
+                                    j += 1
+                            for env in envs:
+                                if not all(holds(t, lab, env, D) for (t, lab) in conds):
+                                    continue
+                                try:
+                                    e = _cover_eval(et, env, D, None)
+                                except _Unknown:
+                                    continue
+                                if not (0 <= e < n):
+                                    dup = ', '.join(f"in({q}){'==' if D[q] else '!='}in({q - 1})" for q in ks)
+                                    bad = (c, f"start={start}, end={end}, n={n}" + (f" ({dup})" if dup else '') + f": `in({fmt_term(et)})` at line {f.n(c)['l']} reads index {e}" +
+                                           (', one element past the input' if e == n else ''))
+                                    break
+        if bad:
+            obs.append(Ob('IN-RANGE', f, bad[0], req, bad[1], VIOLATED, arm='driver'))
         else:
-            obs.append(Ob('INDEX-COVER', f, sites[0][0], req, f"{len(sites)} sites cover every rank in {n_models} abstract models (lengths 1..6, all duplicate patterns)", OK, arm='cover'))
+            obs.append(Ob('IN-RANGE', f, sites[0][0], req, f"{len(sites)} reads stay inside [0, n) in {n_models} abstract models", OK, arm='driver'))
     return obs
 
 
+def _is_unknown(t, env, D, f):
+    try:
+        _cover_eval(t, env, D, None, f)
+        return False
+    except _Unknown:
+        return True
+
+
 def _loop_info(f, g, cb):
-    """(loop variable name, init term, cond node) of the for statement whose condition block is cb, or None"""
+    """(loop variable name, init term, cond node, breaks) of the for statement whose condition block is cb, or None.
+    breaks: for every `break` in the body the list of (condition term, label) it is control dependent on (inside the loop)"""
     for i in f.all_ids():
         nd = f.n(i)
         if nd['c'] != 'ForStmt':
@@ -1226,10 +1470,37 @@ def _loop_info(f, g, cb):
             return None
         if any(w != f.strip(inc) and w not in set(f.walk(inc)) for w in d['writes']):
             return None
+        breaks = []
         for j in f.walk(body):
-            if f.n(j)['c'] in ('BreakStmt', 'ReturnStmt', 'GotoStmt'):
+            cj = f.n(j)['c']
+            if cj in ('ReturnStmt', 'GotoStmt'):
                 return None
-        return (v['name'], nocast(f.term(d['init'], inline=False)), cond)
+            if cj == 'BreakStmt':
+                # a break of this loop (not of a nested loop or switch)
+                p_ = f.parent(j)
+                nested = False
+                while p_ and p_ != i:
+                    if f.n(p_)['c'] in ('ForStmt', 'WhileStmt', 'DoStmt', 'SwitchStmt', 'CXXForRangeStmt'):
+                        nested = True
+                    p_ = f.parent(p_)
+                if nested:
+                    return None
+                bc = []
+                # a break is the terminator of its block, not an element: its control dependences are those of that block
+                tb_ = [b_['id'] for b_ in f.cfg['blocks'] if b_.get('term') == j]
+                if not tb_:
+                    return None
+                deps = conds_iter(f, block=tb_[0])
+                for (t, lab, cn, b2) in deps:
+                    tc = g.blocks[b2].get('term_c')
+                    if tc == 'IfStmt':
+                        bc.append((nocast(t), lab))
+                    elif tc in ('ForStmt', 'WhileStmt') and f.strip(cn) != f.strip(cond):
+                        return None
+                if not bc:
+                    return None
+                breaks.append(bc)
+        return (v['name'], nocast(f.term(d['init'], inline=False)), cond, breaks)
     return None
 
 
